@@ -23,6 +23,14 @@ CHECKS = {
          "Invariant monitor walking every returned []Peer2PeerConnection/[]Peer of six world families (NP, canonicalisation stress, ANP/BANP, Ingress/Route, exposure, focus) through both library entry points. Held on the K results in the evidence.",
          "IP ranges parsed from Peer.IP() with our own parser; API-admissible inputs.",
          "runtime monitoring: structural invariant monitor on returned results", "DESIGN.md §5 C05"),
+ 'C14': ('exploration',
+         "Purely relational monitor over pairs of real list runs related by one single-step edit (add rule / add policy on governed or ungoverned pods / five equivalent re-spellings): inclusion, equality and locality are checked point-wise on bitsets and address atoms without any semantic model of the policies. Held on the K (world, edit) pairs in the evidence.",
+         "Only the selector matcher and the policyTypes defaulting rule (to decide which pods a new policy selects/governs) are trusted.",
+         "runtime monitoring: metamorphic relational oracle over paired list runs", "DESIGN.md §5 C14"),
+ 'C16': ('exploration',
+         "Relational monitor over two library runs per (input, W): the focused entries must be exactly the unfocused entries touching a workload that matches W (or the ingress controller), with identical connections; nothing matching => empty + warning + nil error. Held on the K (world, W) pairs in the evidence.",
+         "The filter is recomputed from the unfocused run's peer accessors.",
+         "runtime monitoring: relational filter oracle over paired list runs", "DESIGN.md §5 C16"),
 }
 
 NOT_YET = "check not built yet (construction in progress, see DESIGN.md section 9)"
